@@ -235,7 +235,8 @@ Reroute(t) ==
 
 Next == \E t \in 1..NT : Advance(t) \/ Commit(t) \/ Rewind(t) \/ Reroute(t)
 Spec == Init /\ [][Next]_vars
-FairSpec == Spec /\ \A t \in 1..NT : WF_vars(Advance(t)) /\ WF_vars(Commit(t))
+\* the code advances a train whenever it can and commits what it keeps: strong fairness of both
+FairSpec == Spec /\ \A t \in 1..NT : SF_vars(Advance(t)) /\ SF_vars(Commit(t))
 
 (* Level A on Level B *)
 OppExclusive     == OppExclusiveOf(H, PlansB)
